@@ -930,52 +930,72 @@ def h_shared(ctx):
 
 @R.clause("C10.i", "'received on a multicast address' is decided on the normalised local address: v4-mapped groups (::ffff:224.0.1.187) count as multicast, exactly as for the remote address")
 def i_multicast_locally(ctx):
-    """An independently written breaking change evaluated IPv6Address(<packed local address>).is_multicast directly:
-    for v4-mapped addresses that is False, so an unmatched CON response received on an IPv4 group was answered with a
-    Reset.  Sibling agreement: is_multicast and is_multicast_locally both take .is_multicast of ipaddress.ip_address()
-    applied to a plain-address string that went through _strip_v4mapped."""
-    cls = ctx.prog.cls("transports.udp6.UDP6EndpointAddress")
-    for prop, helper in (("is_multicast", "_plainaddress"), ("is_multicast_locally", "_plainaddress_local")):
-        fi = cls.methods.get(prop)
+    """Independently written breaking changes evaluated IPv6Address(<packed local address>).is_multicast directly (once
+    inline, once through a helper that hands out the pktinfo's address as an IPv6Address object): before Python 3.13
+    that is False for v4-mapped addresses, so an unmatched CON response received on an IPv4 group was answered with a
+    Reset.
+
+    Decided by VALUE, not by shape: UDP6EndpointAddress.is_multicast / .is_multicast_locally are run in the checker's
+    own evaluator (kit.AddrMachine: exact strings and bytes plus a model of ipaddress / struct /
+    socket.if_indextoname that states the version-dependent library semantics explicitly) on representative
+    addresses -- IPv6 groups with and without a zone, IPv4 groups in their v4-mapped spelling (what a dual-stack
+    socket reports), the edges of 224.0.0.0/4 and of ff00::/8, unicast addresses of both families -- under the
+    library semantics of Python < 3.13 and >= 3.13, with if_indextoname succeeding and failing.  The necessary
+    condition is the table itself: the property is True exactly for the groups.  How the helpers are cut
+    (_plainaddress, _plainaddress_local, _strip_v4mapped, new ones, none at all), which string method strips the
+    zone, whether the address object is held in a temporary ... cannot change the verdict; asking the IPv6Address of a
+    v4-mapped group does (it yields False in the < 3.13 world)."""
+    prog = ctx.prog
+    cls = prog.cls("transports.udp6.UDP6EndpointAddress")
+    # interface indices of the scenarios: 0 = none, 3 = an interface if_indextoname knows (or not, second world)
+    worlds = [(aware, names) for aware in (False, True) for names in ({3: "eth0"}, {})]
+    remote = [(a, 0) for a in _ADDRESSES] + [("ff02::fd", 3), ("fe80::1", 3), ("ff02::fd%eth0", 3), ("fe80::1%eth0", 3)]
+    local = [(a, i) for a in _ADDRESSES for i in (0, 3)]
+    for prop, scenarios in (("is_multicast", remote), ("is_multicast_locally", local)):
+        fi = prog.lookup_method(cls.qn, prop)
         ctx.need(fi is not None, "UDP6EndpointAddress.%s missing" % prop)
-        rets = [n for n in walk_no_nested(fi.node) if isinstance(n, ast.Return) and n.value is not None]
-        ok = False
-        if len(rets) == 1:
-            # single-assignment locals are substituted at every depth: `addr = ip_address(..); return addr.is_multicast`
-            # and `plain = self._plainaddress_local(); return ip_address(plain).is_multicast` are the confirmed expression
-            v = _deep_resolve(fi.node, rets[0].value)
-            b = match("ipaddress.ip_address($a).is_multicast", v) or match("ip_address($a).is_multicast", v)
-            if b is not None and (chain(v.value.func) == "ipaddress.ip_address" or ctx.prog.resolve_in_module(fi.module, "ip_address") == "ipaddress.ip_address"):
-                src = [c for c in ast.walk(b["a"]) if isinstance(c, ast.Call) and call_name(c) == "self." + helper]
-                ok = len(src) == 1
-        ctx.ob("%s is ipaddress.ip_address(<%s()>).is_multicast" % (prop, helper), ok, fi, rets[0] if rets else fi.node)
-        hf = cls.methods.get(helper)
-        ctx.need(hf is not None, "UDP6EndpointAddress.%s missing" % helper)
-        hr = [n for n in walk_no_nested(hf.node) if isinstance(n, ast.Return) and n.value is not None]
-        okh = bool(hr) and all(any(isinstance(c, ast.Call) and call_name(c) in ("self._strip_v4mapped", "type(self)._strip_v4mapped", cls.qn.split(".")[-1] + "._strip_v4mapped")
-                                   for c in ast.walk(_deep_resolve(hf.node, r.value))) for r in hr)
-        ctx.ob("%s renders v4-mapped addresses as plain IPv4 (through _strip_v4mapped)" % helper, okh, hf, hr[0] if hr else hf.node)
+        wrong = []
+        for literal, index in scenarios:
+            host = kit._host_ip.IPv6Address(literal)
+            expected = kit.reference_is_multicast(6, int(host))
+            for aware, names in worlds:
+                interface = Obj("obj", "self.interface")
+                if prop == "is_multicast":
+                    # the peer: (host, port, flowinfo, scope_id) as the socket reports it; the local address of the
+                    # same datagram is a unicast one (so that nothing but the sockaddr can make it a multicast peer)
+                    sockaddr = (literal, 5683, 0, index)
+                    pktinfo = kit._host_struct.pack("16sI", kit._host_ip.IPv6Address("2001:db8::2").packed, 0)
+                else:
+                    sockaddr = ("2001:db8::1", 5683, 0, 0)
+                    pktinfo = kit._host_struct.pack("16sI", host.packed, index)
+                me = Obj("self", "self", attrs={"sockaddr": sockaddr, "pktinfo": pktinfo, "interface": interface,
+                                                "_interface": Obj("builtin", "self._interface", data=lambda m_, a_, k_, n_, i_=interface: i_)})
+                m = kit.AddrMachine(prog, cls, me, {}, {}, {}, if_names=names, mapped_aware=aware)
+                try:
+                    try:
+                        got = m.getattr(me, prop, fi.node)
+                        ctx.need(not (isinstance(got, Obj) and got.kind in ("bound", "func", "partial")), "UDP6EndpointAddress.%s is not a property" % prop)
+                        got = "True" if m.truth(got) else "False"
+                    except kit.Raised as r:
+                        got = "raises %s" % r.cls
+                except kit.Unknown as u:
+                    raise AnalysisError("C10.i: evaluation of %s on %s: %s is outside the evaluator's vocabulary" % (prop, literal, u))
+                if got != str(expected):
+                    w = "%s%s -> %s" % (literal, " (interface %d)" % index if index else "", got)
+                    if w not in wrong:
+                        wrong.append(w)
+        ctx.ob("%s is True exactly for multicast groups, IPv4 groups in v4-mapped form included" % prop, not wrong, fi, fi.node,
+               construct="UDP6EndpointAddress.%s" % prop, detail="; ".join(wrong[:6]) if wrong else None)
 
 
-def _deep_resolve(fnode, e, depth=6):
-    """e with every local that is assigned exactly once in fnode replaced by its value, recursively"""
-    env = norm.local_env(fnode)
-
-    class Sub(ast.NodeTransformer):
-        def __init__(self, d):
-            self.d = d
-
-        def visit_Name(self, n):
-            if isinstance(n.ctx, ast.Load) and n.id in env and self.d > 0:
-                return Sub(self.d - 1).visit(_copy(env[n.id]))
-            return n
-
-    return Sub(depth).visit(_copy(e))
-
-
-def _copy(e):
-    import copy
-    return copy.deepcopy(e)
+# representative addresses (as IPv6 literals: what the dual-stack socket reports): groups and non-groups of both
+# families, and both edges of ff00::/8 and of 224.0.0.0/4 behind the v4 mapping
+_ADDRESSES = (
+    "ff02::fd", "ff05::fd", "ff00::", "ff0e::1:2", "ffff:ffff:ffff:ffff:ffff:ffff:ffff:ffff",
+    "::ffff:224.0.1.187", "::ffff:224.0.0.0", "::ffff:239.255.255.255", "::ffff:239.1.2.3",
+    "::ffff:223.255.255.255", "::ffff:240.0.0.0", "::ffff:192.0.2.7", "::ffff:255.0.0.1", "::ffff:127.0.0.1",
+    "2001:db8::1", "fe80::1", "feff::1", "::1", "::", "::224.0.1.187", "::fffe:224.0.1.187", "64:ff9b::e000:1bb",
+)
 
 
 F_MM = "aiocoap/messagemanager.py"
